@@ -123,6 +123,24 @@ PLAN = {
         rule="tablenew / tableamino / tablecodon events: random maps over codons of length 1..4 with 0/1/2/3+ "
              "preimages, each table built 4x (fresh hash order), queries as slices at offsets",
     ),
+    "C16": dict(
+        programs=dict(quick=["literals"]),
+        mc=dict(quick=["MC_C16"]),
+        rule="generated programs: every valid literal (lengths 0..257 incl. 15/16/17, 31/32/33, 63..65, 127..129, "
+             "alphabet rotated) is one macro expansion logging value/eq/hash vs runtime parsing; every invalid literal "
+             "(one offending character first/middle/last: lower case, N/U/X, digit, blank, newline, multi-byte UTF-8) is "
+             "one bin target that must not compile, with a valid twin that must; dev and release",
+        assumptions=["rustc's accept/reject verdict on a generated program is taken as observed (TLC never sees inside the compiler)"],
+    ),
+    "C17": dict(
+        programs=dict(quick=["derives"]),
+        mc=dict(quick=["MC_C17"]),
+        rule="generated programs: seeded enum declarations (2..40 variants, discriminants 0..255 as decimal/binary/hex/byte "
+             "literals, optional #[alt], #[display], #[bits]) always including max discriminant in {1,2,3,4,7,8,127,128,254,255}; "
+             "each logs BITS, both decoders over all 256 bytes, items, characters and a Seq round trip; malformed declarations "
+             "must not compile, each with a valid twin; dev and release",
+        assumptions=["rustc's accept/reject verdict on a generated program is taken as observed (TLC never sees inside the compiler)"],
+    ),
     "C18": dict(
         traces=[("c18", (6, None)), ("c18all", (None, 12))],
         seeds=dict(quick=1, thorough=3),
